@@ -68,6 +68,7 @@ def _mutation_nodes(V):
 
 
 def check(ctx):
+    names_kept_as_given(ctx)
     ctx.rule("T8-atomic", "Store.add/addNode/change: no path from a mutation of the tree to a raise (reviewed: "
              "isinstance test on the value setdefault just returned)")
     ctx.rule("T1-empty", "empty path segments are rejected before the first creating call")
@@ -233,6 +234,26 @@ def check(ctx):
                   "create must return the existing entry, never replace it; empty containers are falsy so the test must be `is not None`")
     bn = ctx.fn("storing", "Node.byName")
     ctx.check("self.name = name" in src(bn) or "self._name = name" in src(bn), "T9-names", bn, "Node.byName stores the name", "")
+
+
+def names_kept_as_given(ctx):
+    """the store validates and places an entry by its .name (Store.add / change / addNode read share.name, node.name): the name
+    an entry carries must be the one the caller asked for, so that an invalid request is seen as invalid"""
+    ctx.rule("T9-rawname", "Share.__init__ / Node.__init__ keep the given name unchanged (self.name = name)")
+    for cn, mname, attr in (("Share", "__init__", "self.name"), ("Node", "name", "self._name")):
+        C = ctx.cls("storing", cn)
+        f = C.methods.get(mname)      # Node.name: the property setter (the later definition of the name)
+        if f is None or (cn == "Node" and len(f.args.args) != 2):
+            raise AnchorError("%s.%s not found" % (cn, mname))
+        ctx.use(f)
+        V = FuncView(ctx, f)
+        st = [n for n in V.stores(attr)]
+        pname = f.args.args[1].arg if cn == "Node" else "name"
+        ok = bool(st) and all(isinstance(n.ast, ast.Assign) and src(V.sym(n.ast.value, n)) == pname for n in st)
+        ctx.check(ok, "T9-rawname", st[0].ast if st else f, "%s.%s: %s = name" % (cn, mname, attr),
+                  "a name that is cleaned up on the way in (empty segments dropped, dots collapsed) passes the store's own check "
+                  "for empty path segments: create('a..b') is accepted and files the share at a.b, while fetch('a..b') still "
+                  "refuses the path")
 
 
 def change_replaces_shares_only(ctx):
